@@ -68,11 +68,15 @@ pub(super) fn std_strings() -> FunctionMap {
         Ok(Value::String(joined))
     });
 
-    std_function!(functions => fn SUBSTRING(raw: Value::String, start: Value::Number, length: Value::Number) {
+    std_function!(functions => fn SUBSTRING [ctx] (raw: Value::String, start: Value::Number, length: Value::Number) {
+        // positions are 1-based character positions, like indexing
+        if !(start >= 1.0) {
+            return Err(ctx.error(1, "Invalid String Index", "SUBSTRING positions start at 1", "Start position is out of range"))
+        }
         let start = start as usize - 1;
         let length = length as usize;
-        let substring = &raw[start..std::cmp::min(start + length, raw.len())];
-        Ok(Value::String(substring.to_string()))
+        let substring: String = raw.chars().skip(start).take(length).collect();
+        Ok(Value::String(substring))
     });
 
     std_function!(functions => fn TO_CHAR_ARRAY(raw: Value::String) {
